@@ -60,6 +60,7 @@ Fixpoint attr_ids (e : expr) : list nat :=
   match e with
   | EAttr a => [a_id a]
   | EInt _ | EStr _ | EBool _ | ENone | EParam _ _ => []
+  | ECol i _ _ | ESub i => [i]
   | EArith _ a b | EConcat a b | ECmp _ a b | EAnd a b | EOr a b => attr_ids a ++ attr_ids b
   | ENeg a | EAbs a | ELen a | ENot a | EIn _ a _ => attr_ids a
   | EIf c t f => attr_ids c ++ attr_ids t ++ attr_ids f
